@@ -29,7 +29,8 @@ class Boom(Exception):
 
 def _rand_case(rng):
     n = rng.randint(2, 5)
-    callers = [{"key": rng.choice([0, 0, 0, 1]), "yields": rng.randint(0, 3), "out": rng.choice(["ret", "ret", "raise"])} for _ in range(n)]
+    callers = [{"key": rng.choice([0, 0, 0, 1]), "yields": rng.randint(0, 3), "out": rng.choice(["ret", "ret", "raise", "ret0"]),
+                "form": rng.choice(["pos", "pos", "kw"])} for _ in range(n)]      # ret0: the body returns the falsy value 0; form: f(k) or f(k=k)
     return {"kind": rng.choice(["cache", "cache", "cache_lock", "early", "soft"]), "callers": callers,
             "extra": rng.random() < 0.5, "cancel": rng.choice([None, 0, 1, n - 1]), "bursts": sorted(rng.sample(range(1, 12), rng.choice([0, 0, 1, 2]))),
             "schedule": [rng.randrange(12) for _ in range(30)]}
@@ -105,6 +106,8 @@ def _run(case):
                 ev.append(["bend", c, specs[c]["out"]])
                 if specs[c]["out"] == "ret":
                     return 100 + c
+                if specs[c]["out"] == "ret0":
+                    return 0
                 raise Boom(c)
             kind = case["kind"]
             if kind == "cache": f = cache(ttl=100000, key="k:{k}")(body)
@@ -117,7 +120,11 @@ def _run(case):
                     await drv.gate("start")
                     who.set(i)
                     ev.append(["call", i, specs[i]["key"]])
-                    r = await (f(specs[i]["key"], trace=i) if case.get("extra") else f(specs[i]["key"]))
+                    kk = specs[i]["key"]
+                    if specs[i].get("form") == "kw":
+                        r = await (f(k=kk, trace=i) if case.get("extra") else f(k=kk))
+                    else:
+                        r = await (f(kk, trace=i) if case.get("extra") else f(kk))
                     ev.append(["got", i, "ret", r])
                 except Boom as e:
                     ev.append(["got", i, "raise", e.args[0]])
@@ -155,7 +162,8 @@ def _out(kind, v):
 
 
 def _spec_out(specs, c):
-    return _out(specs[c]["out"], 100 + c if specs[c]["out"] == "ret" else c)
+    o = specs[c]["out"]
+    return _out("ret" if o == "ret0" else o, 100 + c if o == "ret" else 0 if o == "ret0" else c)
 
 
 def to_coq(case, obs):
